@@ -172,21 +172,26 @@ def OccUnique (p : Prog) : Prop := ((seqLog p).map Rec.key).Nodup
 
 /-! ## Structured ("fork–join") programs -/
 
-/-- `pend` = units spawned and not yet joined, each with the action depth at which it was spawned -/
-def joinedB : List (Nat × Nat) → Nat → List Stmt → Bool
+/-- `pend` = units spawned and not yet joined, each with the number of *finishing* blocks (`enter`, `withOf`,
+`remote`: their `exit` ends the action) open where it was spawned; `stk` = the open blocks, innermost first,
+`true` for a finishing one.  Leaving a `with a.context():` block (`ctxOf`) ends no action, so a unit spawned
+inside it may be joined after it. -/
+def joinedB : List (Nat × Nat) → List Bool → List Stmt → Bool
   | pend, _, [] => pend.isEmpty
-  | pend, d, .enter _ :: r => joinedB pend (d + 1) r
-  | pend, d, .withOf _ :: r => joinedB pend (d + 1) r
-  | pend, d, .ctxOf _ :: r => joinedB pend (d + 1) r
-  | pend, d, .remote _ :: r => joinedB pend (d + 1) r
-  | pend, d, .create _ :: r => joinedB pend d r
-  | pend, d, .exit :: r => pend.all (fun e => e.2 < d) && joinedB pend (d - 1) r
-  | pend, d, .log _ :: r => joinedB pend d r
-  | pend, d, .spawnThread v :: r => joinedB ((v, d) :: pend) d r
-  | pend, d, .spawnTask v :: r => joinedB ((v, d) :: pend) d r
-  | pend, d, .join v :: r => joinedB (pend.filter (fun e => e.1 != v)) d r
+  | pend, stk, .enter _ :: r => joinedB pend (true :: stk) r
+  | pend, stk, .withOf _ :: r => joinedB pend (true :: stk) r
+  | pend, stk, .ctxOf _ :: r => joinedB pend (false :: stk) r
+  | pend, stk, .remote _ :: r => joinedB pend (true :: stk) r
+  | pend, stk, .create _ :: r => joinedB pend stk r
+  | pend, [], .exit :: r => joinedB pend [] r
+  | pend, true :: stk, .exit :: r => pend.all (fun e => e.2 < (true :: stk).count true) && joinedB pend stk r
+  | pend, false :: stk, .exit :: r => joinedB pend stk r
+  | pend, stk, .log _ :: r => joinedB pend stk r
+  | pend, stk, .spawnThread v :: r => joinedB ((v, stk.count true) :: pend) stk r
+  | pend, stk, .spawnTask v :: r => joinedB ((v, stk.count true) :: pend) stk r
+  | pend, stk, .join v :: r => joinedB (pend.filter (fun e => e.1 != v)) stk r
 
 /-- every spawned unit is joined by its spawner before the enclosing action (and the spawner) ends -/
-def Joined (p : Prog) : Prop := ∀ code ∈ p.codes, joinedB [] 0 code = true
+def Joined (p : Prog) : Prop := ∀ code ∈ p.codes, joinedB [] [] code = true
 
 end Ctx
